@@ -266,6 +266,11 @@ def expected_events(case, ops):
             ev.append((r["a"], r["i"], op[1], True))
         elif o == "exec" and not isinstance(op[1], list):
             ev.append((r["a"], r["i"], t0 + op[1] / SPEED, False))
+        elif o == "exec_async" and not isinstance(op[1], list) and not (isinstance(op[2], dict) and op[2].get("nostart")):
+            # runs in the background: its completion is an event even if nobody waits for it (no completion signal is logged then)
+            ev.append((r["a"], r["i"], t0 + op[1] / SPEED, True))
+        elif o == "io_async":
+            ev.append((r["a"], r["i"], t0 + op[2] / DISK_BW, True))
         if o in ("wait", "get", "mq_get", "mq_put", "wait_any", "wait_all") and isinstance(op[-1], dict) and "timeout" in op[-1]:
             ev.append((r["a"], r["i"], t0 + op[-1]["timeout"], False))
     for a in case["actors"]:
